@@ -77,6 +77,9 @@ func writeEvidence(p *Property, o DriveOpts, agg *Agg, wall float64, viol int, k
 		kfIDs = []string{}
 	}
 	cov["known_findings_matched"] = kfIDs
+	if agg.CoverText != "" {
+		cov["statement_coverage_of_calc_packages_quick_size_replay"] = agg.CoverText
+	}
 	cov["exhaustive"] = false
 	if p.Extra != nil {
 		p.Extra(agg, cov)
